@@ -136,9 +136,12 @@ func ASCII85Decode(data []byte) ([]byte, error) {
 
 		// Convert base-85 to binary
 		// Each group of 5 digits represents 4 bytes
-		value := uint32(0)
+		value := uint64(0)
 		for _, d := range digits {
-			value = value*85 + uint32(d)
+			value = value*85 + uint64(d)
+		}
+		if value > 0xFFFFFFFF {
+			return nil, fmt.Errorf("invalid ASCII85 group: value exceeds 2^32-1")
 		}
 
 		// Extract bytes (big-endian)
